@@ -524,6 +524,26 @@ def path_states(fn, start=0, switch_facts=None, atom_facts=None, marks=None, sto
         a = adts.get(adt)
         return bool(a) and a.get("kind") == "enum"
 
+    def nested(v, depth=0):
+        """A known enum value kept as the payload of another one (three levels at most)."""
+        if v is None or v[0] != "v":
+            return None
+        if len(v) < 4 or depth >= 2:
+            return v[:3]
+        return v[:3] + (tuple(nested(x, depth + 1) for x in v[3]),)
+
+    def payload_of(op, vals):
+        """`(x as V).k` of a local x known to have been built as variant V with known operands: the k-th operand's value."""
+        if op.get("k") not in ("copy", "move"):
+            return None
+        pr = [e for e in op["pl"]["p"] if e != "*"]
+        v = vals.get(op["pl"]["l"])
+        if v is None or v[0] != "v" or len(v) < 4 or len(pr) != 2 or not (isinstance(pr[0], dict) and "dc" in pr[0] and isinstance(pr[1], dict) and "f" in pr[1]):
+            return None
+        if pr[0]["dc"] != v[2] or pr[1]["f"] >= len(v[3]):
+            return None
+        return v[3][pr[1]["f"]]
+
     results = []
     seen = set()
     work = [(start, (), (), frozenset())]
@@ -563,12 +583,16 @@ def path_states(fn, start=0, switch_facts=None, atom_facts=None, marks=None, sto
                     new = ("c", bool(op["val"]["int"]))
                 elif bare(op) is not None:
                     new = vals.get(bare(op))
+                else:
+                    new = payload_of(op, vals)
             elif rv["rv"] == "unop" and rv["op"] == "Not":
                 v = vals.get(bare(rv["a"])) if bare(rv["a"]) is not None else None
                 if v is not None and v[0] in ("c", "a"):
                     new = ("c", not v[1]) if v[0] == "c" else ("a", v[1], not v[2])
             elif rv["rv"] == "agg" and rv.get("agg") == "adt" and rv.get("variant") and is_enum(rv.get("adt")):
-                new = ("v", rv["adt"], rv["variant"])
+                # (the known variants of the operands travel with the value: `Poll::Ready(Err(e))`, `Some(Ok(frame))`)
+                inner = tuple(nested(vals.get(bare(o))) if bare(o) is not None else None for o in rv["ops"])
+                new = ("v", rv["adt"], rv["variant"], inner) if any(x is not None for x in inner) else ("v", rv["adt"], rv["variant"])
             if new is None or l in untracked:
                 vals.pop(l, None)
             else:
